@@ -48,10 +48,10 @@ type LoginSpec struct {
 	// SerialText, when set, is printed in place of Serial (digit strings a uint64 does not hold,
 	// leading zeros)
 	SerialText string `json:"serialtext,omitempty"`
-	Alg    string `json:"alg,omitempty"`
-	FP     string `json:"fp,omitempty"`
-	CAFP   string `json:"cafp,omitempty"`
-	Pad    string `json:"pad,omitempty"`
+	Alg        string `json:"alg,omitempty"`
+	FP         string `json:"fp,omitempty"`
+	CAFP       string `json:"cafp,omitempty"`
+	Pad        string `json:"pad,omitempty"`
 }
 
 // Message is what sshd logs (no PID, no newline).
